@@ -192,6 +192,16 @@ let rec filter f = function
 | [] -> []
 | x :: l0 -> if f x then x :: (filter f l0) else filter f l0
 
+(** val combine : 'a1 list -> 'a2 list -> ('a1 * 'a2) list **)
+
+let rec combine l l' =
+  match l with
+  | [] -> []
+  | x :: tl0 ->
+    (match l' with
+     | [] -> []
+     | y :: tl' -> (x, y) :: (combine tl0 tl'))
+
 (** val firstn : nat -> 'a1 list -> 'a1 list **)
 
 let rec firstn n0 l =
@@ -1503,6 +1513,19 @@ let warnings gi aut tabl =
           (candidates gi.gi_rules aut (la_lookup tabl) (sprec_of gi)
             (rprec_of gi) q a))) (seq O gi.gi_nsyms)) (seq O (length aut))
 
+(** val conflict_cells :
+    ginfo -> automaton -> (nat * nat list) list list -> (nat * nat) list **)
+
+let conflict_cells gi aut tabl =
+  flat_map (fun q ->
+    flat_map (fun a ->
+      if Nat.leb (S (S O))
+           (length
+             (candidates gi.gi_rules aut (la_lookup tabl) (sprec_of gi)
+               (rprec_of gi) q a))
+      then (q, a) :: []
+      else []) (seq O gi.gi_nsyms)) (seq O (length aut))
+
 (** val cellz : z list list -> nat -> nat -> z **)
 
 let cellz m i j =
@@ -1644,8 +1667,9 @@ type gen_error =
 
 type tables = { t_aut : automaton; t_la : (nat * nat list) list list;
                 t_dense : z list list;
-                t_warn : ((nat * nat) * (nat * nat)) list; t_packed : 
-                packed; t_need_packed : bool }
+                t_warn : ((nat * nat) * (nat * nat)) list;
+                t_conf : (nat * nat) list; t_packed : packed;
+                t_need_packed : bool }
 
 (** val generate_tables : ginfo -> (gen_error, tables) sum **)
 
@@ -1659,8 +1683,8 @@ let generate_tables gi =
        let dense = dense_of n0 gi.gi_nsyms (action_fun gi aut tabl) in
        let p = compress dense gi.gi_nterm gi.gi_nsyms n0 in
        Inr { t_aut = aut; t_la = tabl; t_dense = dense; t_warn =
-       (warnings gi aut tabl); t_packed = p; t_need_packed =
-       (need_packed p n0 gi.gi_nsyms) }
+       (warnings gi aut tabl); t_conf = (conflict_cells gi aut tabl);
+       t_packed = p; t_need_packed = (need_packed p n0 gi.gi_nsyms) }
      | None -> Inl ETooManyStates)
   | _ :: l -> Inl (EUnproductive l)
 
@@ -1807,11 +1831,6 @@ let table_of v t =
   then packed_action n0 t.t_packed
   else dense_action n0 t.t_dense
 
-(** val init_of : variant -> pst -> pst **)
-
-let init_of v s =
-  if is_object v then init_object s else init_global s
-
 (** val cfinal :
     table -> grammar -> semact -> nat -> pst -> tok list -> pst **)
 
@@ -1856,17 +1875,40 @@ let rec cfinal tab g act fuel s inp =
                   | _ -> s)
                | None -> s)
 
+(** val init_b : bool -> pst -> pst **)
+
+let init_b obj s =
+  if obj then init_object s else init_global s
+
+(** val parse_from_tab :
+    table -> bool -> grammar -> semact -> nat -> pst -> tok list -> result **)
+
+let parse_from_tab tab obj g act fuel s inp =
+  crun tab g act fuel (init_b obj s) inp O []
+
+(** val state_after_tab :
+    table -> bool -> grammar -> semact -> nat -> pst -> tok list -> pst **)
+
+let state_after_tab tab obj g act fuel s inp =
+  cfinal tab g act fuel (init_b obj s) inp
+
+(** val history_tab :
+    table -> bool -> grammar -> semact -> nat -> pst -> tok list list ->
+    result list **)
+
+let rec history_tab tab obj g act fuel s = function
+| [] -> []
+| inp :: rest ->
+  (parse_from_tab tab obj g act fuel s inp) :: (history_tab tab obj g act
+                                                 fuel
+                                                 (state_after_tab tab obj g
+                                                   act fuel s inp) rest)
+
 (** val parse_from :
     variant -> tables -> grammar -> semact -> nat -> pst -> tok list -> result **)
 
 let parse_from v t g act fuel s inp =
-  crun (table_of v t) g act fuel (init_of v s) inp O []
-
-(** val state_after :
-    variant -> tables -> grammar -> semact -> nat -> pst -> tok list -> pst **)
-
-let state_after v t g act fuel s inp =
-  cfinal (table_of v t) g act fuel (init_of v s) inp
+  parse_from_tab (table_of v t) (is_object v) g act fuel s inp
 
 (** val parse :
     variant -> tables -> grammar -> semact -> nat -> tok list -> result **)
@@ -1878,12 +1920,8 @@ let parse v t g act fuel inp =
     variant -> tables -> grammar -> semact -> nat -> pst -> tok list list ->
     result list **)
 
-let rec history v t g act fuel s = function
-| [] -> []
-| inp :: rest ->
-  (parse_from v t g act fuel s inp) :: (history v t g act fuel
-                                         (state_after v t g act fuel s inp)
-                                         rest)
+let history v t g act fuel s inps =
+  history_tab (table_of v t) (is_object v) g act fuel s inps
 
 (** val modulus : z **)
 
@@ -1908,3 +1946,46 @@ let linear_act spec r vals =
   | Some p ->
     let (c, coefs) = p in Z.modulo (Z.add c (dot coefs vals)) modulus
   | None -> Z0
+
+(** val sym_eqb_list : nat list -> nat list -> bool **)
+
+let sym_eqb_list a b =
+  (&&) (Nat.eqb (length a) (length b))
+    (forallb (fun p -> Nat.eqb (fst p) (snd p)) (combine a b))
+
+(** val replay :
+    grammar -> semact -> (nat * z) list -> tok list -> nat -> (nat * nat)
+    list -> z option **)
+
+let rec replay g act stack inp shifted = function
+| [] ->
+  (match app (rev inp) stack with
+   | [] -> None
+   | t :: l ->
+     let (s1, v) = t in
+     (match l with
+      | [] ->
+        if (&&) (Nat.eqb s1 (hd O (rhs_of g O)))
+             (negb (Nat.eqb (length (rhs_of g O)) O))
+        then Some v
+        else None
+      | _ :: _ -> None))
+| p :: rest ->
+  let (r, k) = p in
+  if Nat.ltb k shifted
+  then None
+  else let n0 = sub k shifted in
+       if Nat.ltb (length inp) n0
+       then None
+       else let stack1 = app (rev (firstn n0 inp)) stack in
+            (match nth_error g r with
+             | Some r0 ->
+               let m = length r0.rhs in
+               if Nat.ltb (length stack1) m
+               then None
+               else if sym_eqb_list (map fst (firstn m stack1)) (rev r0.rhs)
+                    then replay g act ((r0.lhs,
+                           (act r (rev (map snd (firstn m stack1))))) :: 
+                           (skipn m stack1)) (skipn n0 inp) k rest
+                    else None
+             | None -> None)
